@@ -355,6 +355,8 @@ def minimize_crash(exe, prop, path, env_extra, budget=90):
     """Driver-side delta debugging for cases that kill the process (no in-process shrinking possible):
     instruction words of a program case are replaced by the NOP-equivalent word while the replay still dies."""
     kv = read_kv(path)
+    if 'ncmds' in kv:
+        return minimize_crash_history(exe, prop, path, env_extra, budget)
     if 'prog' not in kv or 'nopword' not in kv:
         return path
     try:
@@ -388,6 +390,43 @@ def minimize_crash(exe, prop, path, env_extra, budget=90):
         span //= 2
     open(tmp, 'w').write('\n'.join(lines) + '\nprog=' + bytes(prog).hex() + '\n')
     rc, _ = replay_once(exe, prop, tmp, env_extra, timeout=150)
+    if rc != 0:
+        os.replace(tmp, path)
+    else:
+        os.remove(tmp)
+    return path
+
+
+def minimize_crash_history(exe, prop, path, env_extra, budget=90):
+    """ddmin over the command list of an API-history case (operands resolve modulo live objects, so every sub-sequence is valid)."""
+    lines = [l for l in open(path, errors='replace').read().split('\n') if l]
+    head = [l for l in lines if not re.match(r'cmd\d+=', l) and not l.startswith('ncmds=')]
+    cmds = [l.split('=', 1)[1] for l in sorted((l for l in lines if re.match(r'cmd\d+=', l)), key=lambda l: int(l[3:l.index('=')]))]
+    tmp = path + '.min'
+    used = [0]
+
+    def write(cs, dst):
+        open(dst, 'w').write('\n'.join(head + ['ncmds=0x%x' % len(cs)] + ['cmd%d=%s' % (i, c) for i, c in enumerate(cs)]) + '\n')
+
+    def fails(cs):
+        if used[0] >= budget:
+            return False
+        used[0] += 1
+        write(cs, tmp)
+        rc, _ = replay_once(exe, prop, tmp, env_extra, timeout=300)
+        return rc != 0
+    span = max(1, len(cmds) // 2)
+    while span >= 1 and used[0] < budget:
+        s0 = 0
+        while s0 < len(cmds) and used[0] < budget:
+            cand = cmds[:s0] + cmds[s0 + span:]
+            if len(cand) < len(cmds) and fails(cand):
+                cmds = cand
+            else:
+                s0 += span
+        span //= 2
+    write(cmds, tmp)
+    rc, _ = replay_once(exe, prop, tmp, env_extra, timeout=300)
     if rc != 0:
         os.replace(tmp, path)
     else:
